@@ -165,7 +165,7 @@ def grep_forbidden(modules):
     return hits
 
 
-def lean_build_and_audit(prop_id):
+def lean_build_and_audit(prop_id, recheck=False):
     """Regenerate the source-derived table, build model + driver, build the proof modules of
     `prop_id`, audit its property theorems.  Returns a dict:
        ok (bool), obligations, discharged, failures [text], theorems {name: [axioms] | None}."""
@@ -194,6 +194,13 @@ def lean_build_and_audit(prop_id):
                 res["failures"].append("proof module %s no longer checks: %s" % (m, " || ".join(e.replace("\n", " ")[:300] for e in errs[:4])))
             else:
                 built.append(m)
+        if recheck and built:
+            # thorough tier: the toolchain's independent re-checker replays the compiled proof modules in the kernel
+            rc, out = run(["lake", "env", "leanchecker"] + built, cwd=LEAN, timeout=3000)
+            res["leanchecker"] = "ok" if rc == 0 else "failed"
+            if rc != 0:
+                res["ok"] = False
+                res["failures"].append("leanchecker rejects %s: %s" % (" ".join(built), out[-600:].replace("\n", " ")))
         hits = grep_forbidden(modules)
         if hits:
             res["ok"] = False
@@ -262,7 +269,23 @@ def print_axioms(thms, modules):
 
 # ---------------------------------------------------------------- driver
 def driver_run(lines, timeout=1800):
-    """Pipe protocol lines to the Lean driver, return the list of output lines."""
+    """Pipe protocol lines to the Lean driver, return the list of output lines (large batches are spread over several
+    driver processes; the driver is a pure function of each line)."""
+    lines = list(lines)
+    nproc = min(12, os.cpu_count() or 1, len(lines) // 100)
+    if nproc >= 2:
+        from concurrent.futures import ThreadPoolExecutor
+        chunks = [lines[i::nproc] for i in range(nproc)]
+        with ThreadPoolExecutor(max_workers=nproc) as ex:
+            outs = list(ex.map(lambda c: _driver_run1(c, timeout), chunks))
+        res = [None] * len(lines)
+        for i, o in enumerate(outs):
+            res[i::nproc] = o
+        return res
+    return _driver_run1(lines, timeout)
+
+
+def _driver_run1(lines, timeout=1800):
     exe = os.path.join(LEAN, ".lake", "build", "bin", "driver")
     inp = "\n".join(lines) + "\n"
     if os.path.exists(exe):
